@@ -245,6 +245,41 @@ def run_in(spec, res, d, h):
                                                                 e2[:2]))
         except Exception as e:
             res.note('re-dated-window-raised:%s' % type(e).__name__)
+    if not problems and fs['nt'] >= 4 and not spec.get('disk') and \
+            not spec.get('notflag') and fs.get('via') != 'uamiv' and \
+            fs['seed'] % 2 == 1:
+        # a source whose steps are not evenly spaced (steps 0, 1, 3[, 4] of
+        # a fresh copy): a window across the gap keeps each retained step's
+        # own time stamp
+        try:
+            f2 = gen_ioapi.build(fs)
+            if 'time' in f2.variables:
+                raise LookupError('file carries a CF time coordinate')
+            keep = [0, 1, 3] + ([4] if fs['nt'] > 4 else [])
+            src2 = f2.sliceDimensions(TSTEP=keep)
+            w2 = src2.sliceDimensions(TSTEP=slice(1, 3))
+            res.hook('sliceDimensions.return')
+            res.facet('window-across-uneven-steps')
+            want = [gen_ioapi.jd_add(fs['sdate'], fs['stime'], i * dt)
+                    for i in (1, 3)]
+            tf2 = np.asarray(w2.variables['TFLAG'][...])
+            got2 = [(int(tf2[i, 0, 0]), int(tf2[i, 0, 1]))
+                    for i in range(tf2.shape[0])]
+            if got2 != [tuple(x) for x in want]:
+                problems.append('window [1:3] of a source holding steps %s: '
+                                'TFLAG %s, the retained steps are %s'
+                                % (keep, got2, want))
+            g2 = [as_utc_tuple(t)[:6] for t in w2.getTimes()]
+            e2 = [gen_ioapi.jd_tuple(*x) for x in want]
+            if g2 != e2:
+                problems.append('window [1:3] of a source holding steps %s '
+                                'decodes to %s, expected %s' % (keep, g2, e2))
+            if (int(w2.SDATE), int(w2.STIME)) != tuple(want[0]):
+                problems.append('window [1:3] of a source holding steps %s: '
+                                'SDATE/STIME (%s, %s), expected %s'
+                                % (keep, w2.SDATE, w2.STIME, want[0]))
+        except Exception as e:
+            res.note('uneven-window-raised:%s' % type(e).__name__)
     res.ev(dg, dropped, facets)
     if problems:
         res.viol('referencing-lost:' + '+'.join(sorted(kw)),
